@@ -144,13 +144,26 @@ def run_model(ctx, items, nshard=None, timeout=400, depth=0):
             res[i] = ([obs_text(x) for x in tr], model_outcome(oc), slot)
     failed = [i for i in failed if res[i] is None]
     if failed and depth < 2:
-        # a shard died (time/memory limit): re-run its unevaluated programs in smaller files with a longer limit
-        sub, sublog = run_model(ctx, [items[i] for i in failed], nshard=max(1, min(len(failed), sv.NPROC)),
+        # a shard died (time/memory limit): re-run its unevaluated programs in smaller files with a longer limit; in the last round
+        # every program is alone in its file, so that one program that exhausts the memory limit cannot take others with it
+        sub, sublog = run_model(ctx, [items[i] for i in failed], nshard=(len(failed) if depth == 1 else max(1, min(len(failed), sv.NPROC))),
                                 timeout=timeout * 2, depth=depth + 1)
         for i, r in zip(failed, sub):
             res[i] = r
         log += sublog
+    elif failed:
+        # alone in its file and still not evaluated: when coqc ran out of memory / stack / time the program is too large for the Gallina
+        # interpreter (its unary and inductive data needs gigabytes) - the size heuristic under-estimated it; it is counted as skipped.
+        # Any other failure (a Coq error in the generated term) stays a failure of the tie.
+        for idx, (rc, out) in zip(parts, outs):
+            if any(res[i] is None for i in idx) and (rc in (124, 137, -9) or re.search(r"out of memory|Out of memory|Stack overflow|Cannot allocate", out)):
+                for i in idx:
+                    if res[i] is None:
+                        res[i] = RESOURCE
     return res, log
+
+
+RESOURCE = ("RESOURCE",)
 
 
 def run_python(ctx, srcs):
@@ -180,8 +193,11 @@ def compare(ctx, entries):
     ctx.log("implementation ran %d programs (rc=%s)" % (len(cases), rc))
     # programs whose run is large (long loops, big objects) are not sent to the Gallina interpreter, whose unary/inductive
     # data would need gigabytes; they are counted as skipped
+    # (run_ref's `peak` includes what CPython's compiler allocates, about 150 bytes per source byte: the allowance grows with
+    # the source text so that the bound is on what the RUN allocates, not on the length of the program)
     small = [i for i in range(len(entries))
-             if py is None or (py[i].get("steps", 10 ** 9) <= 4000 and py[i].get("peak", 10 ** 9) <= 400000
+             if py is None or (py[i].get("steps", 10 ** 9) <= 4000
+                               and py[i].get("peak", 10 ** 9) <= 400000 + 150 * max(0, len(entries[i].get("pysrc", entries[i]["src"])) - 1000)
                                and sum(len(x) for x in py[i]["tr"]) <= 20000)]
     mres, mlog = run_model(ctx, [entries[i]["coq"] for i in small])
     model = [None] * len(entries)
@@ -199,6 +215,10 @@ def compare(ctx, entries):
             continue
         if i in skipped:
             st["skipped_large"] = st.get("skipped_large", 0) + 1
+            continue
+        if m is RESOURCE or m == RESOURCE:
+            st["skipped_large"] = st.get("skipped_large", 0) + 1
+            st["skipped_model_out_of_resources"] = st.get("skipped_model_out_of_resources", 0) + 1
             continue
         if m is None:
             failures.append({"key": "model-run-failed", "what": "the Coq reference could not be evaluated for %s: %s" % (e["id"], mlog[-200:]),
@@ -291,7 +311,9 @@ def gen_entries(ctx, n, **kw):
     for i in range(n):
         seed = ctx.rng.getrandbits(48)
         nopy = ctx.rng.random() < 0.1
-        g = progs.generate(seed, features=("strings", "repr_str") if nopy else ("strings",), **kw)
+        # "effects": operands traced / right-hand sides and arguments that emit and mutate the container being read or assigned
+        # (evaluation ORDER is observed, also relative to a failure)
+        g = progs.generate(seed, features=("strings", "effects", "repr_str") if nopy else ("strings", "effects"), **kw)
         for k, v in g["stats"].items():
             agg[k] = agg.get(k, 0) + v
         if g["uses_strings"]:
@@ -433,6 +455,9 @@ def correspond(ctx):
         "input_distribution": agg,
         "programs_with_string_operations": agg.get("programs_with_string_operations", 0) * 2,
         "string_operations_generated": agg.get("string_op", 0) + agg.get("planted_string_failure", 0),
+        "string_operations_with_receiver_derived_arguments": agg.get("receiver_derived_argument", 0),
+        "evaluation_order_statements": {"effect_blocks": agg.get("effect_block", 0), "traced_operands": agg.get("traced_operand", 0),
+                                        "failures_with_observed_order": agg.get("planted_effect_failure", 0)},
         "starlark_only_repr_programs_not_sent_to_cpython": st.get("starlark_only_repr", 0),
         "non_ascii_stream": ust,
         "samples": [entries[0]["src"], entries[-1]["src"]],
